@@ -330,9 +330,10 @@ func accessors(c *Ctx, rule string) {
 				c.check(isNilConst(v) || isEmptySliceVal(v), rule, fname, "nil map / absent key => empty", pos, ap(v), "returns "+ap(v))
 			case hasLoopBack(t):
 				nLoop++
-				app, ok := v.(*AppendV)
-				good := ok && len(app.Elems) == 1 && (ap(app.Elems[0]) == coll+"[*].Value") && strings.HasPrefix(app.S.Key(), "loopphi(") &&
-					loopShapeOf(a, coll).Exhausted && loopStartsAtZero(t, coll)
+				good, _, _ := accumulated(t, a, v, coll, coll+"[*].Value")
+				if _, isApp := v.(*AppendV); isApp {
+					good = good && loopStartsAtZero(t, coll)
+				}
 				c.check(good, rule, fname, "present => all values in index order", pos, ap(v), "GetAll does not accumulate every value in order: "+ap(v))
 			default:
 				c.check(isNilConst(v) || isEmptySliceVal(v), rule, fname, "present without values => empty", pos, ap(v), "returns "+ap(v))
